@@ -320,10 +320,24 @@ func clusterAffectedByChangedDrs(
 	}
 
 	if proxy.PrevSidecarScope != nil {
-		if dr := proxy.PrevSidecarScope.DestinationRule(model.TrafficDirectionOutbound, proxy, hostname); dr != nil {
-			if slices.ContainsFunc(dr.GetFrom(), changedDrs.Contains) {
+		prevDr := proxy.PrevSidecarScope.DestinationRule(model.TrafficDirectionOutbound, proxy, hostname)
+		if prevDr != nil {
+			if slices.ContainsFunc(prevDr.GetFrom(), changedDrs.Contains) {
 				return true
 			}
+		}
+		// A changed rule can also affect a host without being applied to it before or after: a rule in the proxy's
+		// own namespace shadows the exported rule that shaped the cluster. The cluster is regenerated by CDS then,
+		// so its endpoints have to be sent as well: compare the rules applied before and after.
+		var cur, prev []types.NamespacedName
+		if currentDr != nil {
+			cur = currentDr.GetFrom()
+		}
+		if prevDr != nil {
+			prev = prevDr.GetFrom()
+		}
+		if !slices.Equal(cur, prev) {
+			return true
 		}
 	}
 
